@@ -349,3 +349,57 @@ def to_ir(root):
         memo[id(n)] = r
         return r
     return go(root)
+
+
+# ---- realisation through the public expression API --------------------------------------------------------
+def to_expr(root):
+    """The same spec built with hl.* calls (operators, if_else, bind, struct, array, map/filter/fold, len).  Free
+    leaves are expression variables (what a table field reference is to the front end); sharing = reuse of the
+    Python expression object, exactly how user code creates shared IR nodes.  Returns the root Expression."""
+    from hail.expr.expressions.typed_expressions import construct_variable
+    leaves = {'x': construct_variable('x', tint32), 'c': hl.int32(7), 'p': construct_variable('p', tbool),
+              'A': construct_variable('A', tarray(tint32))}
+    memo = {}
+
+    def go(n, env):
+        if isinstance(n, Var):
+            return env[n.name]
+        if isinstance(n, Leaf):
+            return leaves['A'] if n.name == 'SA' else leaves[n.name]
+        if id(n) in memo:
+            return memo[id(n)]
+        k = n.kind
+        if k == 'LET':
+            r = hl.bind(lambda v: go(n.ops[1], {**env, n.names[0]: v}), go(n.ops[0], env))
+        elif k == 'SMAP':
+            r = go(n.ops[0], env).map(lambda v: go(n.ops[1], {**env, n.names[0]: v}))
+        elif k == 'SFILT':
+            r = go(n.ops[0], env).filter(lambda v: go(n.ops[1], {**env, n.names[0]: v}))
+        elif k == 'FOLD':
+            r = hl.fold(lambda a, v: go(n.ops[2], {**env, n.names[0]: a, n.names[1]: v}), go(n.ops[1], env),
+                        go(n.ops[0], env))
+        else:
+            o = [go(x, env) for x in n.ops]
+            if k == 'SUB':
+                r = o[0] - o[1]
+            elif k == 'LT':
+                r = o[0] < o[1]
+            elif k == 'IF':
+                r = hl.if_else(o[0], o[1], o[2])
+            elif k == 'MKS':
+                r = hl.struct(a=o[0], b=o[1])
+            elif k == 'GETA':
+                r = o[0].a
+            elif k == 'GETB':
+                r = o[0].b
+            elif k == 'MKA':
+                r = hl.array([o[0], o[1]])
+            elif k in ('TOS', 'TOA'):
+                r = o[0]
+            elif k == 'ALEN':
+                r = hl.len(o[0])
+            else:
+                raise ValueError(k)
+        memo[id(n)] = r
+        return r
+    return go(root, {})
